@@ -377,3 +377,26 @@ fn k_rasterize_order() {
     kani::cover!(rows == 4 && start == 4);
     kani::cover!(rows == 0);
 }
+
+// ------------------------------------------------------------------ curve subdivision count (C08 #3)
+// @ob id=K.curve_steps props=C08,C07 kind=complete tier=quick timeout=600 fns=compute_curve_steps,diff_to_shift,cheap_distance
+// @+ desc="compute_curve_steps for quarter-grid control points in ±4000 px: no overflow, result in [0,16] so that after clamping 1 <= shift <= 6; the subdivision count depends on the curve only through the deviation of the control point from the chord midpoint and is isotropic: swapping the roles of x and y gives the same count, mirroring either axis gives the same count, and a larger deviation never gives fewer subdivisions"
+#[kani::proof]
+fn k_curve_steps() {
+    let c: [i32; 6] = kani::any();
+    let mut i = 0;
+    while i < 6 { kani::assume(c[i] >= -16000 && c[i] <= 16000); i += 1; }
+    let e = Edge { x1: c[0], y1: c[1], control_x: c[2], control_y: c[3], x2: c[4], y2: c[5] };
+    let s = compute_curve_steps(&e);
+    assert!(s >= 0 && s <= 16, "shift in range");
+    let swapped = Edge { x1: c[1], y1: c[0], control_x: c[3], control_y: c[2], x2: c[5], y2: c[4] };
+    assert!(compute_curve_steps(&swapped) == s, "isotropic: x and y play the same role");
+    let mirrored = Edge { x1: -c[0], y1: c[1], control_x: -c[2], control_y: c[3], x2: -c[4], y2: c[5] };
+    assert!(compute_curve_steps(&mirrored) == s, "mirror symmetric");
+    // a curve whose control point deviates more (same direction, doubled) needs at least as many subdivisions
+    let dx = c[2] * 2 - c[0] - c[4];
+    let dy = c[3] * 2 - c[1] - c[5];
+    let bulged = Edge { x1: c[0], y1: c[1], control_x: c[2] + dx, control_y: c[3] + dy, x2: c[4], y2: c[5] };
+    assert!(compute_curve_steps(&bulged) >= s, "more curvature never means fewer segments");
+    kani::cover!(s == 3);
+}
